@@ -2,7 +2,11 @@
 
 package bal_slb
 
-import "github.com/bfenetworks/bfe/bfe_balance/backend"
+import (
+	"time"
+
+	"github.com/bfenetworks/bfe/bfe_balance/backend"
+)
 
 // VerifC04Backends returns the backends of brr in list order.
 func VerifC04Backends(brr *BalanceRR) []*backend.BfeBackend {
@@ -13,4 +17,15 @@ func VerifC04Backends(brr *BalanceRR) []*backend.BfeBackend {
 		out = append(out, b.backend)
 	}
 	return out
+}
+
+// VerifC04SetElapsed: clock seam for updateSlowStart (C04: least connections during a slow-start ramp).
+func VerifC04SetElapsed(brr *BalanceRR, port int, elapsed time.Duration) {
+	brr.Lock()
+	defer brr.Unlock()
+	for _, b := range brr.backends {
+		if b.backend.Port == port {
+			b.weightSS.startTime = time.Now().Add(-elapsed)
+		}
+	}
 }
